@@ -264,9 +264,10 @@ theorem c15_hist (cfg : Cfg) (hcfg : cfg.deepDefault = true) (s : Schema) (ops :
 
 /-! ### caller data -/
 
-/-- **c15_input_unchanged**: Parse through a caller's pointer without an overwrite check writes back the value
-    that is already there: every location of the store reads as before. -/
-theorem c15_input_unchanged (σ : Store) (p : Loc) (kv : List (Nat × UVal)) (hp : σ.heap p = some (.node kv)) :
+/-- **legacy** (round 1, the code BEFORE /repo e584c0e: `validatePointer` wrote `*ptr = v` back even without an overwrite; with
+    `v` the value already there every location reads as before). Not the current code and not run by the driver: the pointer
+    half of the first clause is `ptrP_input_unchanged` / `own_ptr_input_unchanged` (Proofs/C15Ptr.lean) over `parsePtrP`. -/
+theorem legacy_c15_input_unchanged (σ : Store) (p : Loc) (kv : List (Nat × UVal)) (hp : σ.heap p = some (.node kv)) :
     ∀ x, (parsePtr σ p none).1.heap x = σ.heap x := by
   intro x
   simp only [parsePtr, write, upd, readNode, hp]
@@ -274,8 +275,10 @@ theorem c15_input_unchanged (σ : Store) (p : Loc) (kv : List (Nat × UVal)) (hp
   · next h => rw [h, hp]
   · rfl
 
-/-- **c15_same_pointer**: the pointer comes back as the same pointer (with or without overwrite). -/
-theorem c15_same_pointer (σ : Store) (p : Loc) (ow : Option (List (Nat × UVal))) :
+/-- **legacy** (round 1): `Store.parsePtr` answers `.ref p` by definition — this says nothing about the code. It is kept because
+    the overwrite branch (`ow = some kv`: `*ptr = v; return ptr`, still the code when an overwrite check is attached) is what the
+    driver runs for `ptr … 1 …` lines. The same-pointer clause is `ptr_same_pointer_full / _partial / _obj_witness` (C15Ptr). -/
+theorem legacy_c15_same_pointer (σ : Store) (p : Loc) (ow : Option (List (Nat × UVal))) :
     (parsePtr σ p ow).2 = .ref p := by
   cases ow <;> rfl
 
